@@ -29,6 +29,8 @@
 (*   byte n a b       b data bytes: (n or a), a+1, a+2, ...                *)
 (*   fill a b         a copies of b;  zero a;  zuntil a                    *)
 (*   org a            absolute origin (GLOBAL); orgz n a: zone n's start+a *)
+(*   orgl n a         origin given by an expression over a label: .org n+a *)
+(*                    (the label has to be bound earlier in pass 1)        *)
 (*   zone n           select zone;  align a (0: default page size)         *)
 (*   mute / unmute                                                         *)
 (*   ifdef n / ifndef n / if n a (#if n == a) / ifnz n (#if n)             *)
@@ -226,7 +228,8 @@ ReadStep0(r, l0) ==
               IF HasKey(r.consts, key) THEN Fail(r, "duplicate")
               ELSE AddLine([r EXCEPT !.consts = Append(@, [key |-> key, v |-> l.a])],
                            LineObj(i, l, TRUE, muted, r.zone, r.file, r.region))
-        [] l.k = "org" ->
+        [] l.k \in {"org", "orgl"} ->
+              \* (the label of orgl is looked up from the file scope: the directive has reset the local region)
               AddLine([r EXCEPT !.zone = "GLOBAL", !.region = 0],
                       LineObj(i, l, TRUE, muted, "GLOBAL", r.file, 0))
         [] l.k \in {"orgz", "zone"} ->
@@ -252,6 +255,12 @@ SizeOf(lo, addr) ==
       [] lo.k = "raw" -> lo.b            \* trace use: a byte line of a real ISA, its size as recorded
       [] OTHER -> 0
 
+Lookup(tab, n, file, region) ==
+    LET key == ScopeKey(n, file, region)
+        hit == SelectSeq(tab, LAMBDA e : e.key = key)
+    IN  IF hit = <<>> \/ (Cls(n) = "l" /\ region = 0) THEN Undef ELSE hit[1].v
+
+
 InitCur(ztab) == [z \in ZoneNames |-> IF z = "GLOBAL" THEN Origin ELSE ztab[z].s]
 
 \* p: [cur, objs, labs, status, why]; ztab is the zone table at the END of reading (zones exist from
@@ -262,7 +271,9 @@ P1Step(p, lo, ztab) ==
         gs   == ztab["GLOBAL"].s
         ge   == ztab["GLOBAL"].e
         page == IF lo.a = 0 THEN PageSize ELSE lo.a
+        lv   == IF lo.k = "orgl" THEN Lookup(p.labs, lo.n, lo.file, lo.region) ELSE 0
         addr == CASE lo.k = "org"   -> lo.a
+                  [] lo.k = "orgl"  -> lv + lo.a
                   [] lo.k = "orgz"  -> zr.s + lo.a
                   [] lo.k = "align" -> AlignUp(p.cur[z], page)
                   [] OTHER -> p.cur[z]
@@ -272,7 +283,8 @@ P1Step(p, lo, ztab) ==
                  file |-> lo.file, region |-> lo.region, addr |-> addr, size |-> size]
         key  == ScopeKey(lo.n, lo.file, lo.region)
     IN
-    IF lo.k \in {"org", "orgz"} /\ (addr < gs \/ addr > ge) THEN [p EXCEPT !.status = "err", !.why = "orgrange"]
+    IF lo.k = "orgl" /\ lv = Undef THEN [p EXCEPT !.status = "err", !.why = "unresolved"]     \* the label is not bound yet
+    ELSE IF lo.k \in {"org", "orgl", "orgz"} /\ (addr < gs \/ addr > ge) THEN [p EXCEPT !.status = "err", !.why = "orgrange"]
     ELSE IF size < 0 THEN [p EXCEPT !.status = "err", !.why = "negsize"]
     ELSE IF nxt < zr.s \/ nxt > zr.e + 1 THEN [p EXCEPT !.status = "err", !.why = "zonebounds"]
     ELSE IF size > 0 /\ (addr < gs \/ nxt - 1 > ge) THEN [p EXCEPT !.status = "err", !.why = "globalbounds"]
@@ -307,11 +319,6 @@ SortByAddrLib(objs) == SortSeq(objs, LAMBDA x, y : x.addr < y.addr)
 
 ---------------------------------------------------------------------------
 (* Pass 2 (C02, C04, C06): bytes and the adjacent overlap check.           *)
-
-Lookup(tab, n, file, region) ==
-    LET key == ScopeKey(n, file, region)
-        hit == SelectSeq(tab, LAMBDA e : e.key = key)
-    IN  IF hit = <<>> \/ (Cls(n) = "l" /\ region = 0) THEN Undef ELSE hit[1].v
 
 \* value of an operand: a label / constant reference or a literal
 OperandVal(o, tab) == IF o.n = "" THEN o.a ELSE Lookup(tab, o.n, o.file, o.region)
